@@ -733,8 +733,10 @@ class _ARM64_ELF(ABI):
         return b"\x1F\x20\x03\xD5"
 
     def caller_saved_registers(self) -> Set[Register]:
+        # x16 and x17 (IP0/IP1) may be corrupted by any call that goes
+        # through a veneer or PLT stub.
         results = {
-            self.get_register(f"x{i}") for i in self._inclusive_range(0, 15)
+            self.get_register(f"x{i}") for i in self._inclusive_range(0, 17)
         }
         results.add(self.get_register("x29"))
         results.add(self.get_register("x30"))
